@@ -834,18 +834,35 @@ fn shake_1(expression: Expression) -> Expression {
                         );
                         regex.push(expression);
                     } else {
-                        let expression = Expression::Search(
-                            Search::RegexSet(
-                                RegexSetBuilder::new(patterns)
-                                    .case_insensitive(insensitive)
-                                    .build()
-                                    .expect("could not build regex set"),
-                                insensitive,
-                            ),
-                            field,
-                            cast,
-                        );
-                        regex_set.push(expression);
+                        match RegexSetBuilder::new(&patterns)
+                            .case_insensitive(insensitive)
+                            .build()
+                        {
+                            Ok(set) => {
+                                regex_set.push(Expression::Search(
+                                    Search::RegexSet(set, insensitive),
+                                    field,
+                                    cast,
+                                ));
+                            }
+                            // NOTE: The merged set can be too large to compile even though every
+                            // pattern compiles on its own, in that case they are kept apart.
+                            Err(_) => {
+                                for pattern in patterns {
+                                    regex.push(Expression::Search(
+                                        Search::Regex(
+                                            RegexBuilder::new(&pattern)
+                                                .case_insensitive(insensitive)
+                                                .build()
+                                                .expect("could not build regex"),
+                                            insensitive,
+                                        ),
+                                        field.clone(),
+                                        cast,
+                                    ));
+                                }
+                            }
+                        }
                     }
                 }
 
